@@ -5,7 +5,7 @@ import json, os, shutil, subprocess, sys, tempfile, time, glob
 from concurrent.futures import ThreadPoolExecutor
 ALL = ['C%02d' % i for i in range(1, 21)]
 def one(path):
-    name = path.split('/')[2].replace('benign_', '') + '-' + path.split('/')[3]
+    name = (path.split('/')[2].replace('benign_', '') + '-' + path.split('/')[3]) if path.startswith('/tmp/') else path.split('/')[3]
     d = tempfile.mkdtemp(prefix='bn_', dir='/tmp')
     out = {}
     try:
@@ -23,13 +23,13 @@ def one(path):
     finally:
         shutil.rmtree(d, ignore_errors=True)
     return name, out
-paths = sorted(glob.glob('/tmp/benign_C*/*/patch.diff'))
+paths = sorted(glob.glob('/tmp/benign_C*/*/patch.diff')) or sorted(glob.glob('/verif/benign/*/patch.diff'))
 if len(sys.argv) > 1:
     paths = [p for p in paths if any(k in p for k in sys.argv[1].split(','))]
 res = {}
 if os.path.exists('/tmp/benign_results.json'):
     res = json.load(open('/tmp/benign_results.json'))
-paths = [p for p in paths if (p.split('/')[2].replace('benign_', '') + '-' + p.split('/')[3]) not in res]
+paths = [p for p in paths if ((p.split('/')[2].replace('benign_', '') + '-' + p.split('/')[3]) if p.startswith('/tmp/') else p.split('/')[3]) not in res]
 with ThreadPoolExecutor(5) as ex:
     for name, out in ex.map(one, paths):
         res[name] = out
